@@ -225,7 +225,11 @@ func blockingOps(e *LockEngine, fn *ssa.Function) []BlockingOp {
 			}
 		case *ssa.Call:
 			if callIs(x, "sync", "WaitGroup", "Wait") {
-				out = append(out, BlockingOp{Instr: in, Kind: "wg.Wait", Desc: "WaitGroup.Wait on " + valueName(x.Call.Args[0])})
+				recv := "?"
+				if len(x.Call.Args) > 0 {
+					recv = valueName(x.Call.Args[0])
+				}
+				out = append(out, BlockingOp{Instr: in, Kind: "wg.Wait", Desc: "WaitGroup.Wait on " + recv})
 			} else if e != nil {
 				if id, kind, ok := e.lockOp(x); ok && (kind == opLock || kind == opRLock) {
 					out = append(out, BlockingOp{Instr: in, Kind: "lock", Chan: id, Desc: "acquire " + shortID(id)})
